@@ -754,7 +754,7 @@ func TestVerifC10(t *testing.T) {
 	if vk.Shard() == 0 {
 		tt.directed()
 	}
-	n := vk.N(400, 40000)
+	n := vk.N(400, 20000)
 	for i := 0; i < n; i++ {
 		tt.r = vk.RandFor(10, i)
 		tt.one(i)
